@@ -219,7 +219,12 @@ def gen_worker(args):
             import earley
             nul = earley.nullable_map(g)[0]
             nullable_control = sorted(k.name() for k, v in nul.items() if v and k.name() in names)
-            nullable_implicit = sorted(k.name() for k, v in nul.items() if v and k.name() not in names)
+            from fandango.language.grammar.nodes.repetition import Repetition as _Rep
+
+            def _empty_reps(n):
+                own = 1 if (isinstance(n, _Rep) and n.min == 0) else 0
+                return own + sum(_empty_reps(c) for c in n.children())
+            nullable_implicit = [None] * sum(_empty_reps(g.rules[k]) for k in g.rules if k.name() in names)
         except Exception as e:
             res.bump("spec_skipped_" + type(e).__name__)
             continue
